@@ -47,6 +47,14 @@ def family(tier, seed):
                                             "K": ["uniform_occupancy(A.2)"]}},
                      "loop-order": {"Z": ["M2", "K1", "N1", "M1", "M0", "N0", "K0"]}},
          "extents": {"K": 2, "M": 4, "N": 3}, "tags": {"legal": True}},
+        # an output-only rank (explicit shape= on the output) with a default loop order that depends on the hash seed
+        # (two non-adjacent flattenings are appended in set order)
+        {"name": "seeds/outonly+two-flattenings/default-lo", "decl": {"A": ["J", "K", "M", "P"], "Z": ["N", "M", "P"]},
+         "exprs": ["Z[n, m, p] = A[j, k, m, p]"],
+         "mapping": {"partitioning": {"Z": {"(M, J)": ["flatten()"], "(P, K)": ["flatten()"]}}},
+         "extents": {"J": 1, "K": 2, "M": 2, "N": 2, "P": 3}, "tags": {"legal": True}},
+        {"name": "seeds/outonly/lo=NMK", "decl": {"A": ["K", "M"], "Z": ["M", "N"]}, "exprs": ["Z[m, n] = A[k, m]"],
+         "mapping": {"loop-order": {"Z": ["N", "M", "K"]}}, "extents": {"K": 2, "M": 2, "N": 3}, "tags": {"legal": True}},
     ]
     jobs += [(dict(s, sizes={}), False) for s in extra]
     jobs += [(dict(s, tags=dict(s["tags"], legal=True)), False) for s in oc if (s.get("tags") or {}).get("core")]
